@@ -87,12 +87,13 @@ namespace c18
                 sigaction(SIGSEGV, &sa, &old_segv);
                 sigaction(SIGBUS, &sa, &old_bus);
                 sigaction(SIGABRT, &sa, &old_abrt); // the library's own assert(is_aligned(..)) counts as the fault it guards against
-                std::vector<unsigned char> before((unsigned char*)p, (unsigned char*)p + n * sizeof(T));
+                std::vector<unsigned char> before((unsigned char*)p, (unsigned char*)p + (n < (size_t(1) << 16) ? n : (size_t(1) << 16)) * sizeof(T));
                 if (sigsetjmp(g_jmp, 1) == 0)
                 {
                     g_armed = 1;
                     T* e = (T*)p;
-                    for (size_t k = 0; k + B::size <= n; k += B::size)
+                    const size_t n_touch = n < (size_t(1) << 16) ? n : (size_t(1) << 16); // a multi-gigabyte block is sampled at its start
+                    for (size_t k = 0; k + B::size <= n_touch; k += B::size)
                     {
                         B b = B::load_aligned(e + k);
                         b.store_aligned(e + k);
